@@ -13,6 +13,7 @@ import PandoraModel.Lemmas.MCCensus
 import PandoraModel.Lemmas.MCCensusBits
 import PandoraModel.Lemmas.MCGrid
 import PandoraModel.Lemmas.MCCmax
+import PandoraModel.Lemmas.MCCauchy
 import PandoraModel.Generated.MatchingCostConsts
 
 namespace Pandora.C02
@@ -317,6 +318,46 @@ theorem cmax_bound_census (up : Bool) (x : Input) (hwf : wfShape x = true) (hm :
   have : (((x.w : Nat) : Rat) * ((x.w : Nat) : Rat)) = ((((x.w * x.w : Nat) : Int)) : Rat) := by push_cast; ring
   rw [this] at h1
   exact h1
+
+/-- `cmax_bound`, zncc: every symbolic cell `cov/√vv` of the volume has `cov² ≤ vv`, i.e. `|zncc| ≤ 1 = cmax`
+    (Cauchy–Schwarz over the window) -/
+theorem cmax_bound_zncc (x : Input) (hwf : wfShape x = true) (hm : x.meas = .zncc)
+    (hz : ∀ k : Int, noTinyVariance x k = true) (r c : Int) (j : Nat)
+    (hj : j < nDisp (gridMin x.dminG x.L.rows x.L.cols) (gridMax x.dmaxG x.L.rows x.L.cols) x.sp)
+    (cov vv : Rat) (hq : costVolume x r c j = .zn cov vv) : cov * cov ≤ vv := by
+  have hsh := shape_of_wf x hwf
+  have hw := window_eq x hsh
+  rw [costVolume_eq_spec x hwf (fun _ => hz) r c j hj] at hq
+  unfold specVolume specCell at hq
+  split at hq
+  · unfold valueSpec at hq
+    simp only [hm] at hq
+    split at hq
+    · simp at hq
+    · simp only [Cell.zn.injEq] at hq
+      obtain ⟨h1, h2⟩ := hq
+      set k := gridMin x.dminG x.L.rows x.L.cols * (x.sp : Int) + j
+      set g : Int → Int → Rat := fun a b => interpR x.R x.sp k a b with hg
+      have hcs := cauchy_window (half x.w) x.L.px g r c
+      simp only at hcs
+      have hN : ((x.w * x.w : Nat) : Rat) = ((2 * half x.w + 1 : Nat) : Rat) * ((2 * half x.w + 1 : Nat) : Rat) := by
+        rw [← hw]; push_cast; ring
+      set N : Rat := ((2 * half x.w + 1 : Nat) : Rat) * ((2 * half x.w + 1 : Nat) : Rat) with hNdef
+      have hNpos : 0 < N := by
+        have : (0 : Rat) < ((2 * half x.w + 1 : Nat) : Rat) := by exact_mod_cast Nat.succ_pos _
+        exact mul_pos this this
+      set Sx := winSum (half x.w) x.L.px r c
+      set Sy := winSum (half x.w) g r c
+      set Sxy := winSum (half x.w) (fun a b => x.L.px a b * g a b) r c
+      set Sxx := winSum (half x.w) (fun a b => x.L.px a b * x.L.px a b) r c
+      set Syy := winSum (half x.w) (fun a b => g a b * g a b) r c
+      rw [hN] at h1 h2
+      have hN0 : N ≠ 0 := ne_of_gt hNpos
+      have ecov : cov = (N * Sxy - Sx * Sy) / (N * N) := by rw [← h1]; field_simp
+      have evv : vv = ((N * Sxx - Sx * Sx) * (N * Syy - Sy * Sy)) / ((N * N) * (N * N)) := by rw [← h2]; field_simp
+      rw [ecov, evv, div_mul_div_comm]
+      exact div_le_div_of_nonneg_right hcs (le_of_lt (mul_pos (mul_pos hNpos hNpos) (mul_pos hNpos hNpos)))
+  · simp at hq
 
 /-- the truncated `cmax` of the code can be exceeded: radiometry in quarters, window 1 (finding C02-F3) -/
 theorem cmax_bound_counterexample :
